@@ -377,7 +377,7 @@ pub fn sets(ctx: &Ctx) -> Vec<CaseSet> {
         // nesting around the recursion limit: both APIs must draw the line at the same place
         CaseSet::new(
             "near-limit-nesting",
-            ctx.size(600, 6_000),
+            ctx.size(2_400, 6_000),
             Box::new(move |rep, rng, _| {
                 let units: &[(&str, &str)] = &[("'", ""), ("`", ""), (",", ""), (",@", ""), ("(", ")"), ("#(", ")"), ("[", "]"), ("(a . ", ")")];
                 let total = rng.range(118, 136);
@@ -403,7 +403,7 @@ pub fn sets(ctx: &Ctx) -> Vec<CaseSet> {
         ),
         CaseSet::new(
             "errors-then-nesting",
-            ctx.size(300, 3_000),
+            ctx.size(1_200, 3_000),
             Box::new(move |rep, rng, _| {
                 // many items that fail inside a nesting construct, then a well-formed nested item
                 let bad: &[&str] = &["'#z ", "''#z ", "(')", "(#z) ", "#(#z) ", "[#z] ", "`,#z ", "(a . #z) ", "'", "(()", ",@#z "];
@@ -424,7 +424,7 @@ pub fn sets(ctx: &Ctx) -> Vec<CaseSet> {
         ),
         CaseSet::new(
         "api-agreement-and-walk",
-        ctx.size(120_000, 6_000_000),
+        ctx.size(600_000, 6_000_000),
         Box::new(move |rep, rng, _| {
             let (input, q, tag) = crate::props::c06::gen_input(rng, &tb, &cfg, 600);
             let q = if rng.chance(1, 2) { Q::from_index(rng.below(N_Q)) } else { q };
